@@ -75,6 +75,12 @@ class StubFile:
         self.pos = S(self.pos + out.length())
         return _plain(out)
 
+    def read1(self, k=-1):
+        """BufferedReader.read1: at most k bytes, possibly fewer although more will follow (what a pipe does)"""
+        if Engine.cur.choose(2) == 0:
+            return self.read(k)
+        return self.read(1)
+
     def write(self, data):
         if self.closed:
             raise ValueError("I/O operation on closed file.")
